@@ -1,5 +1,8 @@
 //! tv: runtime-monitoring harness for triomphe (library part: monitors, models, engines).
+pub mod cmp;
 pub mod conc;
+pub mod ctor;
+pub mod faults;
 pub mod hist;
 pub mod shadow;
 pub mod shapes;
